@@ -265,7 +265,11 @@ def run_check(pid, tier, seed):
     # 2. lean build + audit
     theorems = cfg.get("theorems", [])
     modules = cfg.get("modules", [])
-    lean_ok, out = lake_build(modules + ["driver"]) if modules else lake_build(["driver"])
+    # the driver first, on its own: it must be usable for the search even when a proof obligation fails
+    drv_ok, drv_out = lake_build(["driver"])
+    lean_ok, out = lake_build(modules) if modules else (True, "")
+    if not drv_ok:
+        lean_ok, out = False, drv_out + out
     discharged, details, aerr = (0, [], "")
     failing = []
     if lean_ok:
